@@ -477,15 +477,26 @@ theorem C16_reject_custom (codec : String → Codec) (s : Server) (r : Request)
 
 /-- a registered decoder is the one used for its name (it overrides a built-in of the same name) -/
 theorem C16_custom_overrides (codec : String → Codec) (s : Server) (name id : String) (b : Bytes)
-    (hc : assoc s.custom name = some id) (hlaw : (codec (customLib id)).Lawful)
+    (hc : assoc s.custom name = some id) (hid : id ≠ passThroughId) (hlaw : (codec (customLib id)).Lawful)
     (hb : b.length ≤ s.limit) (hw : ((codec (customLib id)).enc b).length ≤ s.limit) :
     serveS codec s ⟨name, ⟨(codec (customLib id)).enc b, true⟩⟩ = .handled ⟨b, true⟩ := by
   unfold serveS
   rw [C16_gen_shape.1]
-  simp only [if_true, decoderFor, hc]
+  simp only [if_true, decoderFor, hc, hid, if_false]
   rw [limitRead_of_le (s := ⟨(codec (customLib id)).enc b, true⟩) hw, hlaw b]
   simp only []
   rw [limitRead_of_le (s := ⟨b, true⟩) hb]
+
+/-- **Limit behind a pass-through decoder.** A `WithDecoder` decoder that returns `nil, nil` leaves the body to
+the wire-side wrapper alone — which therefore must apply to *every* request, encoded or not: the handler gets
+the raw bytes, cut at the limit. (Instance of `C16_limit_custom`, stated exactly.) -/
+theorem C16_passthrough_limited (codec : String → Codec) (s : Server) (name : String) (w : Stream)
+    (hc : assoc s.custom name = some passThroughId) :
+    serveS codec s ⟨name, w⟩ = .handled (limitRead s.limit w) ∧ (limitRead s.limit w).data.length ≤ s.limit := by
+  refine ⟨?_, limitRead_le _ _⟩
+  unfold serveS
+  rw [C16_gen_shape.1]
+  simp [decoderFor, hc]
 
 theorem C16_package_state_only_read : Compression.availableDecodersOnlyRead = true := by decide
 
@@ -508,6 +519,10 @@ theorem C16_isolation_serve (ss : List Server) (codec : String → Codec) (s : S
   simp [serveP, Proc.clean]
 
 /-! ## non-vacuity -/
+
+/-- a pass-through decoder under "x-raw": a 5-byte body against limit 3 is cut at 3 -/
+example : serveS (fun _ => padCodec) ⟨⟨[""], 3⟩, [("x-raw", passThroughId)]⟩ ⟨"x-raw", ⟨[1, 2, 3, 4, 5], true⟩⟩
+    = .handled ⟨[1, 2, 3], false⟩ := by decide
 
 /-- server A overrides "snappy" and restricts the list; "zstd" is still rejected, the override is used -/
 example : serveS (fun l => if l = "custom:xor" then padCodec else ⟨id, fun _ => none⟩) ⟨⟨["", "gzip"], 10⟩, [("snappy", "xor")]⟩
